@@ -33,7 +33,7 @@ BOUND = {
 ASSUMPTIONS = [
     "in multi-select the entry is split at commas after removing spaces (so a choice containing a space can only be selected by index there)",
     "at end of input a limited question may use up to N further reads, an unlimited one must stop at the first end-of-input read",
-    "errors printed are counted as newline-terminated lines on the error stream that are not part of a prompt block (prompt = question line + one line per choice)",
+    "errors printed are counted structurally: text written between two reads of the input minus the (verbatim repeated) prompt, and text written after the last read",
 ]
 
 ANS = ["", "a", "1", "0", "dup", "-1", "99", "zz", " b ", "a,b", "1,,2", "a, 1", "x y", "10", "A"]
@@ -113,9 +113,13 @@ class Lab(object):
                 self.reads = 0
                 self.eofs = 0
                 self.char_reads = 0
+                self.on_read = None
+                self.marks = []
 
             def read_line(self, length=None):
                 self.reads += 1
+                if self.on_read is not None:
+                    self.marks.append(self.on_read())
                 if self.lines:
                     return self.lines.pop(0)
                 self.eofs += 1
@@ -139,6 +143,7 @@ class Lab(object):
         st = self.Script(lines)
         out, err = self.BufferedOutputStream(), self.BufferedOutputStream()
         io = self.IO(self.Input(st), self.Output(out, self.PlainFormatter()), self.Output(err, self.PlainFormatter()))
+        st.on_read = lambda: len(err.fetch())
         return io, st, out, err
 
 
@@ -181,8 +186,21 @@ def run_dialogue(sh, lab, cfg, script, last_newline=True):
         sh.inconclusive_because("the question read single characters: the stty path was taken, line-reading path not decided")
         return
     errtext = err.fetch()
-    prompts = errtext.count(QTEXT)
-    errors = errtext.count("\n") - prompts * (1 + len(C))
+    # errors printed, counted structurally: everything written before the first read is the prompt; what is written
+    # between two reads is (error text of the attempt) + (the same prompt again); text after the last read is error text
+    marks = st.marks
+    errors = 0
+    if marks:
+        prompt = errtext[:marks[0]]
+        for a, b in zip(marks, marks[1:]):
+            between = errtext[a:b]
+            if not between.endswith(prompt):
+                sh.inconclusive_because("the prompt is not repeated verbatim between attempts: printed errors cannot be separated from prompts")
+                return
+            if between[:len(between) - len(prompt)].strip():
+                errors += 1
+        if errtext[marks[-1]:].strip():
+            errors += 1
     sh.count("reads_observed", st.reads)
     sh.count("errors_observed", max(errors, 0))
     if out.fetch():
